@@ -436,3 +436,27 @@ Example C16_ex_array :
   = Ok (5%Z, [LVal (VInt 16383) 5; LVal (VInt 129) 5; LVal (VInt 16383) 5; LVal (VInt 5) 5]).
 Proof. vm_compute. reflexivity. Qed.
 ''')
+
+
+PROPS['C17'] = dict(
+    title='C17 - constructs are stateless: results do not depend on call history or entry point',
+    requires=['History'],
+    requires_gen=['Effects'],
+    prelude='Local Open Scope nat_scope.',
+    theorems=[
+        ('HistoryFacts', 'effects_ok', 'Over the write-effect summaries REGENERATED FROM THE CURRENT SOURCE (every method of every Construct / expression class except construction-time ones, every module-level function): nothing writes an attribute of self, a class attribute, a module global, a mutable default or through a caching decorator, except Rebuffered.stream2, Debugger.retval and three print-option setters that nothing in the package calls.'),
+        ('HistoryFacts', 'effects_cover', 'The regenerated table has at least 400 rows (the translator aborts below its own thresholds as well).'),
+        ('HistoryFacts', 'history_frame', 'For ANY admissible summary table and ANY history of executions within their summaries: every non-exempt part of every object is what it was.'),
+        ('HistoryFacts', 'C17_objects_unchanged', 'The instance for the table of the current source: after any history of calls - any length, order, successful or failing - every construct object of the pool is unchanged outside the two documented attributes.'),
+        ('HistoryFacts', 'C17_results_history_independent', 'Whatever is computed from that state is the same after any history as before it.'),
+        ('HistoryFacts', 'C17_results_same_at_every_point', '... and the same at any two points of one history.'),
+        ('HistoryFacts', 'C17_any_schedule', 'Any interleaving of the histories of any number of workers is again such a history: the pool is unchanged under every schedule.'),
+    ],
+    examples='''
+Example C17_ex_history :
+  let st : store := fun _ _ => None in
+  let h := [mkEv 1 n_Struct n_parse_ []; mkEv 2 n_Rebuffered n_parse_ [(d_stream2, Some (VInt 5))]; mkEv 1 n_Struct n_parse_ []] in
+  forallb (event_in effects) h = true /\\ run h st 2 d_stream2 = Some (VInt 5) /\\ exempt d_stream2 = true /\\
+  event_in effects (mkEv 1 n_Struct n_parse_ [([x73; x65; x6c; x66; x2e; x78], Some (VInt 1))]) = false.
+Proof. vm_compute. repeat split. Qed.
+''')
